@@ -26,6 +26,12 @@ fn le32(n: u32) -> [u8; 4] {
 fn m_reset() -> (Vec<u8>, String) {
     (vec![1], "reset".into())
 }
+#[derive(serde::Serialize, serde::Deserialize, Debug, Clone)]
+enum Val {
+    Small(u32),
+    Large(Vec<u8>),
+}
+
 fn m_hello(version: u8, timeout_ms: u64, chunk: u32, buf: u32, cq: u16) -> (Vec<u8>, String) {
     let mut b = vec![2];
     b.extend(b"CHMUX\0");
@@ -133,7 +139,7 @@ async fn run_case(i: u64, r: &mut Rng, log: Arc<Mutex<Vec<String>>>) {
     let alive2 = alive.clone();
     let real = tokio::spawn(async move {
         let l = |s: String| log2.lock().unwrap().push(s);
-        match remoc::Connect::io::<_, _, u32, u32, remoc::codec::Default>(cfg, rr, rw).await {
+        match remoc::Connect::io::<_, _, Val, Val, remoc::codec::Default>(cfg, rr, rw).await {
             Ok((conn, mut tx, mut rx)) => {
                 l("sret connect ok".into());
                 let a3 = alive2.clone();
@@ -142,15 +148,22 @@ async fn run_case(i: u64, r: &mut Rng, log: Arc<Mutex<Vec<String>>>) {
                     let _ = conn.await;
                     *a3.lock().unwrap() = Some(false);
                 });
-                match tx.send(0xA1B2C3D4u32).await {
+                match tx.send(Val::Small(0xA1B2C3D4u32)).await {
                     Ok(()) => l("sret send ok".into()),
                     Err(e) => l(format!("sret send err {e}").replace('\n', " ")),
                 }
                 match tokio::time::timeout(Duration::from_secs(3600), rx.recv()).await {
-                    Ok(Ok(Some(v))) => l(format!("sret recv {v}")),
+                    Ok(Ok(Some(Val::Small(v)))) => l(format!("sret recv {v}")),
+                    Ok(Ok(Some(Val::Large(v)))) => l(format!("sret recv large {}", v.len())),
                     Ok(Ok(None)) => l("sret recv end".into()),
                     Ok(Err(e)) => l(format!("sret recv err {e}").replace('\n', " ")),
                     Err(_) => l("sret recv hang".into()),
+                }
+                // a value much larger than the local chunk size: it travels in chunks of the size the *peer* announced,
+                // which may exceed the local receive limit 16 + chunk_size (the limit applies to incoming frames only)
+                match tx.send(Val::Large(vec![0x5a; 300])).await {
+                    Ok(()) => l("sret send2 ok".into()),
+                    Err(e) => l(format!("sret send2 err {e}").replace('\n', " ")),
                 }
                 // keep the halves alive until the case is over
                 tokio::time::sleep(Duration::from_secs(100_000)).await;
@@ -189,7 +202,22 @@ async fn run_case(i: u64, r: &mut Rng, log: Arc<Mutex<Vec<String>>>) {
     });
 
     let mut peer = Peer { w: pw, rng: r.fork(), log: log.clone() };
-    let mut ok = peer.send_msg(m_reset()).await;
+    // frames that are not v3 messages may precede the peer's Reset/Hello (an older or foreign protocol talking first):
+    // the handshake ignores whatever it cannot decode until the Hello arrives
+    let mut ok = true;
+    if r.chance(1, 2) {
+        for _ in 0..r.range(1, 3) {
+            let junk: Vec<u8> = match r.below(4) {
+                0 => vec![0xee, 1, 2],
+                1 => vec![],
+                2 => vec![2, 0x43, 0x48],
+                _ => vec![4, 1],
+            };
+            l(format!("sjunk {}", hex(&junk)));
+            ok &= peer.send_payload(&junk).await;
+        }
+    }
+    ok &= peer.send_msg(m_reset()).await;
     ok &= peer.send_msg(m_hello(3, 0, peer_chunk, 1 << 16, 4)).await;
     let my_port: u32 = 77 + (i as u32 % 5);
     let mut sent_open = false;
@@ -212,8 +240,13 @@ async fn run_case(i: u64, r: &mut Rng, log: Arc<Mutex<Vec<String>>>) {
                 msg.extend_from_slice(&f);
                 if let (true, Some(rp)) = (hdr_last, real_rx_port) {
                     echoed = true;
-                    ok &= peer.send_msg(m_data(rp, true, true)).await;
-                    ok &= peer.send_payload(&msg).await;
+                    // in chunks of at most the chunk size the real endpoint announced
+                    let parts: Vec<Vec<u8>> = msg.chunks(real_chunk as usize).map(|c| c.to_vec()).collect();
+                    let n = parts.len();
+                    for (i, part) in parts.into_iter().enumerate() {
+                        ok &= peer.send_msg(m_data(rp, i == 0, i + 1 == n)).await;
+                        ok &= peer.send_payload(&part).await;
+                    }
                 }
             }
             continue;
